@@ -71,11 +71,13 @@ func (c05) Thresholds(tier string) map[string]int64 {
 		th["class:"+cl] = 1000
 	}
 	th["class:valid-program"] = 500
+	th["class:valid-multi-reader-program"] = 250
+	th["class:multi-reader-one-invalid"] = 250
 	return th
 }
 
 func (c05) Rule() string {
-	return "case = 50 inputs derived from one generated valid program rendered in a PRNG layout: the program itself (must load); token-level mutations (delete / duplicate / swap / insert / replace from a dictionary of << >> { } === --- -> <<if <<endif>> <<else>> # \\\\ \" ( , [ space/tab, stray > ...); line deletions; truncations at PRNG byte offsets; mutations that are invalid by construction (unbalanced <<endif>>, {1 +}, missing ===, tab+space indentation of a statement); raw byte strings with invalid UTF-8, NUL and lone CR; empty and white-space-only inputs; each input also cut at PRNG byte offsets into 2-4 readers. Validity oracle: an independent parse in the harness with the grammar's lexer and parser and the harness's own counting error listeners - valid iff no lexer error, no parser error, the parser stopped at end of input, and - judged by the harness itself, not by the lexer - no line that carries a statement is indented with both tabs and blanks; a multi-reader input is valid iff every reader is. The oracle is cross-checked by two labels (generated programs are valid, the by-construction mutations are invalid); a disagreement there is a harness error (inconclusive). Verdict: NewDialogueRunner returns (panics are caught; a call that does not return is caught by the child watchdog and confirmed alone) and err == nil iff the input is valid. Seeds: 20 strings per case over arbitrary bytes, length 0-40: an error iff a character outside [0-9a-z] occurs, never a panic. Non-trivial: a mutation the oracle rejects, a valid program in a non-canonical layout, or a multi-reader split. Distinct by hash of the readers."
+	return "case = 50 inputs derived from one generated valid program rendered in a PRNG layout: the program itself (must load); a valid program spread over 2-4 readers (must load) and the same readers with one of them made invalid by construction; token-level mutations (delete / duplicate / swap / insert / replace from a dictionary of << >> { } === --- -> <<if <<endif>> <<else>> # \\\\ \" ( , [ space/tab, stray > ...); line deletions; truncations at PRNG byte offsets; mutations that are invalid by construction (unbalanced <<endif>>, {1 +}, missing ===, tab+space indentation of a statement); raw byte strings with invalid UTF-8, NUL and lone CR; empty and white-space-only inputs; each input also cut at PRNG byte offsets into 2-4 readers. Validity oracle: an independent parse in the harness with the grammar's lexer and parser and the harness's own counting error listeners - valid iff no lexer error, no parser error, the parser stopped at end of input, and - judged by the harness itself, not by the lexer - no line that carries a statement is indented with both tabs and blanks; a multi-reader input is valid iff every reader is. The oracle is cross-checked by two labels (generated programs are valid, the by-construction mutations are invalid); a disagreement there is a harness error (inconclusive). Verdict: NewDialogueRunner returns (panics are caught; a call that does not return is caught by the child watchdog and confirmed alone) and err == nil iff the input is valid. Seeds: 20 strings per case over arbitrary bytes, length 0-40: an error iff a character outside [0-9a-z] occurs, never a panic. Non-trivial: a mutation the oracle rejects, a valid program in a non-canonical layout, or a multi-reader split. Distinct by hash of the readers."
 }
 
 func (c05) Assumptions() []string {
@@ -368,6 +370,27 @@ func (p c05) Run(c *core.Ctx) {
 	base := hast.Render(prog, lay)[0]
 	if !p.judge(c, "valid-program", []string{base}, "valid") {
 		return
+	}
+	// a valid program spread over several readers (every reader is a valid script on its own)
+	{
+		mcfg := gen.DefaultFlow()
+		mcfg.MaxStmts = 18
+		mcfg.MaxNodes = 5
+		mcfg.MaxReaders = 4
+		mcfg.WOptions = 26
+		mp := gen.Flow(r, mcfg)
+		if mp.Readers > 1 {
+			if !p.judge(c, "valid-multi-reader-program", hast.Render(mp, hast.RandomLayout(r.Fork())), "valid") {
+				return
+			}
+			// … and the same readers with one of them made invalid
+			rs := hast.Render(mp, hast.RandomLayout(r.Fork()))
+			k := r.Intn(len(rs))
+			rs[k], _ = invalidByConstruction(r, rs[k])
+			if !p.judge(c, "multi-reader-one-invalid", rs, "invalid") {
+				return
+			}
+		}
 	}
 	for i := 0; i < 50; i++ {
 		var in, class, label string
